@@ -111,3 +111,46 @@ def swizzle_impl_types():
             for m in re.finditer(r"impl Vec(\d)Swizzles for (\w+)", open(os.path.join(root, f)).read()):
                 found[m.group(2)] = int(m.group(1))
     return found
+
+
+# ---------------------------------------------------------------------------------------------
+# matrix / affine catalogue
+# ---------------------------------------------------------------------------------------------
+class MT:
+    def __init__(self, name, scalar, cols, rows, colvec, affine=False, linear=None):
+        self.name, self.scalar, self.cols, self.rows, self.colvec = name, scalar, cols, rows, VEC[colvec]
+        self.affine, self.linear = affine, linear
+        self.lname = name.lower()
+        self.n = cols * rows
+
+    def __repr__(self):
+        return self.name
+
+    def file(self, sse):
+        be = "sse2" if sse else "scalar"
+        if self.name in ("Mat2", "Mat3A", "Mat4"):
+            return f"src/f32/{be}/{self.lname}.rs"
+        if self.name in ("Mat3", "Affine2", "Affine3A"):
+            return f"src/f32/{self.lname}.rs"
+        return f"src/f64/{self.lname}.rs"
+
+
+MATS = {m.name: m for m in [
+    MT("Mat2", "f32", 2, 2, "Vec2"), MT("Mat3", "f32", 3, 3, "Vec3"), MT("Mat3A", "f32", 3, 3, "Vec3A"), MT("Mat4", "f32", 4, 4, "Vec4"),
+    MT("DMat2", "f64", 2, 2, "DVec2"), MT("DMat3", "f64", 3, 3, "DVec3"), MT("DMat4", "f64", 4, 4, "DVec4"),
+    MT("Affine2", "f32", 3, 2, "Vec2", True, "Mat2"), MT("Affine3A", "f32", 4, 3, "Vec3A", True, "Mat3A"),
+    MT("DAffine2", "f64", 3, 2, "DVec2", True, "DMat2"), MT("DAffine3", "f64", 4, 3, "DVec3", True, "DMat3")]}
+AXIS = ["x_axis", "y_axis", "z_axis", "w_axis"]
+
+
+def draw_mat(m, var):
+    """arbitrary matrix/affine built from arbitrary columns (Vec3A columns with arbitrary hidden lanes).
+    returns (code, entries[c][r] variable names)"""
+    code, ent, cols = [], [], []
+    for c in range(m.cols):
+        cc, lanes = draw_vec(m.colvec, f"{var}c{c}")
+        code.append(cc)
+        cols.append(f"{var}c{c}")
+        ent.append(lanes)
+    code.append(f"let {var} = {m.name}::from_cols({', '.join(cols)});")
+    return " ".join(code), ent
